@@ -121,12 +121,21 @@ impl Value for ValD {
                     FlagD::HighRes => HighStorageResolutionCtor::construct(),
                     FlagD::NoMetric => NoMetricCtor::construct(),
                 };
-                writer.metric(
-                    obs.iter().map(|o| o.to_observation()),
-                    unit.unit(),
-                    dims.iter().map(|(k, v)| (k.as_str(), v.as_str())),
-                    flags,
-                )
+                // iterators are handed over in both shapes a caller may use: with an exact size
+                // hint (odd numbers of observations / even numbers of dimensions) and with only an
+                // upper bound (a `filter`), as a value that skips optional dimensions would
+                let exact_dims = dims.len() % 2 == 0;
+                let exact_obs = obs.len() % 2 == 1;
+                let d_exact = dims.iter().map(|(k, v)| (k.as_str(), v.as_str()));
+                let d_loose = dims.iter().map(|(k, v)| (k.as_str(), v.as_str())).filter(|_| true);
+                let o_exact = obs.iter().map(|o| o.to_observation());
+                let o_loose = obs.iter().map(|o| o.to_observation()).filter(|_| true);
+                match (exact_obs, exact_dims) {
+                    (true, true) => writer.metric(o_exact, unit.unit(), d_exact, flags),
+                    (true, false) => writer.metric(o_exact, unit.unit(), d_loose, flags),
+                    (false, true) => writer.metric(o_loose, unit.unit(), d_exact, flags),
+                    (false, false) => writer.metric(o_loose, unit.unit(), d_loose, flags),
+                }
             }
             ValD::Error(m) => writer.invalid(m.clone()),
             ValD::Nothing => {}
